@@ -286,6 +286,9 @@ func (u *PacketUnderlay) onOpenSessionRequest(seg *segment, remoteAddr net.Addr)
 		return nil
 	}
 	session := newSessionWithServerUserPolicy(sessionID, false, u.MTU(), seg.serverUserPolicy, nil, u.trafficPattern)
+	if seg.block != nil {
+		session.registerServerUserMetrics(seg.block.BlockContext().UserName)
+	}
 	if err := u.AddSession(session, remoteAddr); err != nil {
 		return err
 	}
